@@ -27,6 +27,7 @@ from vplib import replay as RP      # noqa: E402
 from vplib import cxxtypes as CT    # noqa: E402
 
 VALUE_CLASSES = ('postcondition', 'signal', 'callee-precondition')
+VIOLATION_CLASSES = VALUE_CLASSES + ('frame', 'pointer', 'bounds', 'unwinding', 'loop')
 
 
 def load_findings():
@@ -170,6 +171,10 @@ def decide_failure(prop, job, kern, res, wd):
             break
     if fo is None:
         fo = res.failed[0]
+    if not (fo['cls'].startswith('UB.') or fo['cls'] in VIOLATION_CLASSES):
+        path = write_replay(prop, job, res, fo, None, None, [], 'undecided',
+                            'failed obligation of a class the machinery does not attribute to the code under proof')
+        return 'undecided', path, 'unrecognised obligation class %s: %s' % (fo['cls'], fo.get('desc', '')[:120])
     tr = kern.tr
     fi = tr.funcs[kern.find(job.target)]
     args = cex_args(job, fi, fo.get('cex'), tr)
@@ -242,9 +247,11 @@ def do_check(prop, tier, keep=False, only=None, verbose=False):
 
         def prog(r):
             done[0] += 1
-            if verbose or r.status != 'pass':
+            if verbose or r.status not in ('pass', 'skipped'):
                 print('  [%d/%d] %-8s %6.1fs %s %s' % (done[0], len(jobs), r.status, r.wall_s, r.job.name, (r.detail or '')[:300].replace('\n', ' ')), flush=True)
         results = R.run_jobs(jobs, kernels, wd, progress=prog)
+        skipped = [r for r in results if r.status == 'skipped']
+        results = [r for r in results if r.status != 'skipped']
         # 4. decide
         known_hits = {}
         violations = []
@@ -462,6 +469,40 @@ def do_replay(path):
         shutil.rmtree(wd, ignore_errors=True)
 
 
+def do_selfcheck():
+    """tool presence + the spec library's C++ conversion rules checked against clang (static_asserts)"""
+    import subprocess
+    import tempfile
+    ok = True
+    for tool, arg in (('clang++-14', '--version'), ('cbmc', '--version'), ('goto-cc', '--version'),
+                      ('goto-instrument', '--version'), ('kissat', '--version'), ('llvm-cxxfilt-14', '--version'), ('g++', '--version')):
+        try:
+            out = subprocess.run([tool, arg], capture_output=True, text=True).stdout.strip().split('\n')[0]
+            print('%-18s %s' % (tool, out))
+        except OSError as e:
+            print('%-18s MISSING (%s)' % (tool, e))
+            ok = False
+    names = ['i8', 'u8', 'i16', 'u16', 'i32', 'u32', 'i64', 'u64', 'i128', 'u128']
+    lines = ['#include <cstdint>', '#include <type_traits>', 'using vp_u128 = unsigned __int128; using vp_s128 = __int128;']
+    cn = lambda x: {'i128': 'vp_s128', 'u128': 'vp_u128'}.get(x, CT.CXX_NAME[x])
+    for a in names:
+        for b in names:
+            A, B = CT.ty(a), CT.ty(b)
+            lines.append('static_assert(std::is_same_v<decltype(%s{} + %s{}), %s>, "%s+%s");'
+                         % (cn(a), cn(b), CT.common(A, B).cname, a, b))
+        lines.append('static_assert(std::is_same_v<decltype(-%s{}), %s>, "neg %s");' % (cn(a), CT.promote(CT.ty(a)).cname, a))
+    with tempfile.TemporaryDirectory(dir=HERE) as d:
+        src = os.path.join(d, 'conv.cpp')
+        open(src, 'w').write('\n'.join(lines) + '\nint main(){}\n')
+        p = subprocess.run(['clang++-14', '-std=gnu++20', '-fsyntax-only', src], capture_output=True, text=True)
+        if p.returncode != 0:
+            print('usual-arithmetic-conversion table disagrees with clang:\n' + p.stderr[:2000])
+            ok = False
+        else:
+            print('usual arithmetic conversions: %d static_asserts agree with clang' % (len(lines) - 2))
+    return 0 if ok else 2
+
+
 def main():
     ap = argparse.ArgumentParser()
     sub = ap.add_subparsers(dest='cmd')
@@ -476,7 +517,10 @@ def main():
     l = sub.add_parser('list')
     l.add_argument('prop')
     l.add_argument('--tier', default='quick')
+    sub.add_parser('selfcheck')
     a = ap.parse_args()
+    if a.cmd == 'selfcheck':
+        sys.exit(do_selfcheck())
     if a.cmd == 'check':
         tier = a.tier if a.tier in ('quick', 'thorough') else 'quick'
         sys.exit(do_check(a.prop, tier, a.keep, a.only, a.verbose))
